@@ -7,6 +7,7 @@ import os
 
 from . import common
 from . import hevcgen as H
+from . import hevcmodel as M
 from . import hevcref as F
 from . import hevcrun as R
 
@@ -49,6 +50,35 @@ def run_job(job):
         out["fail"] = (step, exp, obs)
         return out
 
+    def mfail(step_no, op, ans, res, paths):
+        """Lean model vs the CLI for one step (first disagreement kept)"""
+        if ans is None or out.get("model_fail"):
+            return
+        out["model_steps"] = out.get("model_steps", 0) + 1
+        r = None
+        if op.startswith("hevc.mux"):
+            exp, err = M.parse_list(ans)
+            if exp is None:
+                if res.rc == 0:
+                    r = ("err (the command fails)", res.brief())
+            elif res.crashed():
+                r = ("%s, %d NAL units" % ("error status" if err else "ok", len(exp)), res.brief())
+            elif err != (res.rc != 0):
+                r = ("error status" if err else "exit status 0", res.brief())
+            else:
+                r = M.compare_list(exp, paths["out"], check_sc=bool(job.get("check_sc")))
+        else:
+            m = M.parse_general(ans)
+            if m is None:
+                if res.rc == 0:
+                    r = ("err (the command fails)", res.brief())
+            elif res.rc != 0:
+                r = ("ok", res.brief())
+            else:
+                r = M.compare_files(m, paths)
+        if r is not None:
+            out["model_fail"] = (op, r[0], r[1])
+
     bl_path = os.path.join(d, "BL.hevc")
     el_path = os.path.join(d, "EL.hevc")
     # ---- step 1: demux of the dual-layer source (chain kinds) or direct layer files
@@ -59,6 +89,7 @@ def run_job(job):
         env1 = env if "chunk1" not in o else ({HOOK: str(o["chunk1"])} if o["chunk1"] else {})
         res = R.run_tool(["demux", src, "-b", bl_path, "-e", el_path], env=env1, cwd=d)
         out["cmds"].append(res.cmdline())
+        mfail(1, "hevc.general demux (source)", job.get("model_split"), res, {"bl": bl_path, "el": el_path})
         if res.rc != 0:
             return fail("demux", "exit status 0", res.brief())
         for name, path in (("bl", bl_path), ("el", el_path)):
@@ -89,6 +120,7 @@ def run_job(job):
         res = R.run_tool(a, env=env, cwd=d)
     out["cmds"].append(res.cmdline())
     out["mux_rc"] = res.rc
+    mfail(2, "hevc.mux", job.get("model_mux"), res, {"out": mux_out})
     if res.crashed():
         return fail("mux", "no crash", res.brief())
     kind = o["kind"]
@@ -132,6 +164,7 @@ def run_job(job):
     env2 = {HOOK: str(o["chunk2"])} if o.get("chunk2") else {}
     res = R.run_tool(["demux", mux_out, "-b", bl2, "-e", el2], env=env2, cwd=d)
     out["cmds"].append(res.cmdline())
+    mfail(3, "hevc.general demux (muxed)", job.get("model_back"), res, {"bl": bl2, "el": el2})
     if res.rc != 0:
         return fail("demux(mux)", "exit status 0", res.brief())
     for name, path in (("bl", bl2), ("el", el2)):
@@ -192,9 +225,12 @@ def run(ctx):
             o["mode"] = r.below(6)
         return o
 
-    def finish_job(r, st, o, bl_aus, el_frames, job):
+    def finish_job(r, st, o, bl_aus, el_frames, job, m_bl_aus=None, m_el_frames=None):
         key = F.rpu_key(o.get("mode"))
-        conv.ensure([(key, d) for fr in el_frames for t, d in fr if t == H.UNSPEC62])
+        conv.ensure([(key, d) for fr in (m_el_frames or el_frames) for t, d in fr if t == H.UNSPEC62])
+        job["mline_mux"] = M.mux_line(m_bl_aus or bl_aus, m_el_frames or el_frames, conv, key=key, no_add_aud=o.get("no_add_aud", False),
+                                      eos_before_el=o.get("eos_before_el", False), discard=o.get("discard", False),
+                                      start_code=o.get("start_code"))
         exp = F.ref_mux(bl_aus, el_frames, conv, key=key, no_add_aud=o.get("no_add_aud", False),
                         eos_before_el=o.get("eos_before_el", False), discard=o.get("discard", False),
                         start_code=o.get("start_code"))
@@ -231,6 +267,7 @@ def run(ctx):
         el_frames = [tuples(fr) for fr in H.el_frames_of(st)]
         job = {"full": full, "sid": i, "st": st, "so": so}
         job["exp_split"] = F.ref_general(F.items_of(st), "demux", conv)
+        job["mline_split"] = M.general_line("demux", F.items_of(st), conv)
         job = finish_job(r, st, o, bl_aus, el_frames, job)
         if job is None:
             continue
@@ -263,7 +300,8 @@ def run(ctx):
         else:
             bl_bytes = H.render(bl_n)
         job = {"bl": bl_bytes, "el": H.render(el_n), "sid": 1000 + i, "st": st, "so": so, "bl_has_rpu": keep_rpu}
-        job = finish_job(r, st, o, bl_aus, el_frames, job)
+        m_bl = [(au.spec.stype, tuples([n for n in au.nals if n.role != "el"])) for au in st.aus] if keep_rpu else None
+        job = finish_job(r, st, o, bl_aus, el_frames, job, m_bl_aus=m_bl)
         if job is not None:
             jobs.append(job)
     # ---- layers larger than the real 100000-byte chunk: BL read with the real chunk size (file) or any size (stdin)
@@ -286,6 +324,7 @@ def run(ctx):
         el_frames = [tuples(fr) for fr in H.el_frames_of(st)]
         job = {"full": full, "sid": 3000 + i, "st": st, "so": so, "big": True}
         job["exp_split"] = F.ref_general(F.items_of(st), "demux", conv)
+        job["mline_split"] = M.general_line("demux", F.items_of(st), conv)
         job = finish_job(r, st, o, bl_aus, el_frames, job)
         if job is None:
             continue
@@ -322,7 +361,7 @@ def run(ctx):
         bl_aus = [(au.spec.stype, tuples([n for n in au.nals if n.role not in ("el", "rpu")])) for au in aus_bl]
         el_frames = [tuples(fr) for fr in H.el_frames_of(st)[:min(n_bl, n_el)]]
         job = {"bl": H.render(bl_nals), "el": H.render(el_nals), "sid": 2000 + i, "st": st, "so": so, "n_bl": n_bl, "n_el": n_el}
-        job = finish_job(r, st, o, bl_aus, el_frames, job)
+        job = finish_job(r, st, o, bl_aus, el_frames, job, m_el_frames=[tuples(fr) for fr in H.el_frames_of(st)[:n_el]])
         if job is None:
             continue
         exp_bl = []
@@ -339,6 +378,14 @@ def run(ctx):
     with R.Work("C06") as work:
         for j in jobs:
             j["work"] = work
+        n_model = M.attach(jobs, "mline_split", "model_split") + M.attach(jobs, "mline_mux", "model_mux")
+        for j in jobs:
+            # third step: demux of what the model says mux writes (labels as in the reference: no frame labels needed)
+            exp, err = M.parse_list(j["model_mux"])
+            if exp is not None and not err and j["opt"]["kind"] not in ("el_longer", "el_shorter"):
+                j["mline_back"] = M.general_line("demux", [(t, d, 0) for t, d, _ in exp], conv)
+        n_model += M.attach(jobs, "mline_back", "model_back")
+        ctx.count("cases through the Lean model (hevc.mux / hevc.general demux)", n_model)
         results = R.pmap(run_job, jobs)
         for k, o_ in enumerate(results):
             j = o_["job"]
@@ -373,6 +420,15 @@ def run(ctx):
             if k % 53 == 0:
                 ctx.sample("stream#%d (%d frames): %s -> %s" % (j["sid"], len(st.aus), " && ".join(c.replace(work.dir, "$W") for c in o_["cmds"]),
                                                                "+".join(o_["steps"])))
+            ctx.count("model steps compared with the CLI", o_.get("model_steps", 0))
+            if o_.get("model_fail"):
+                mop, mm, mi = o_["model_fail"]
+                files = {"full.hevc": j["full"]} if "full" in j else {"BL.hevc": j["bl"], "EL.hevc": j["el"]}
+                d = R.save_replay(ctx, "model-s%d" % j["sid"], files,
+                                  {"commands": [c.replace(work.dir, ".") for c in o_["cmds"]], "options": {x: y for x, y in o.items() if x != "pieces"},
+                                   "model_op": mop, "model": mm, "implementation": mi, "structure": H.describe(st)})
+                ctx.disagree(mop + " " + _name(o), "%s (seed %d, %d frames): %s" % (d or "stream#%d" % j["sid"], ctx.seed, len(st.aus),
+                             " && ".join(c.replace(work.dir, "$W") for c in o_["cmds"])), mm, mi)
             if o_["fail"]:
                 step, exp, obs = o_["fail"]
                 files = {}
